@@ -1053,4 +1053,217 @@ theorem resendFixMsgIn_high (s : Sess) (stash : List (Int × InMsg)) (cur fin : 
   | stay h1 h2 => exact Or.inl rfl
   | drain h1 h2 => omega
 
+/-! ## in-sequence messages -/
+
+/-- what the application sees of a message (C01's deliveries, plus the administrative callback) -/
+def cbObs (s : Sess) (m : InMsg) : Obs :=
+  if isAdminKind (kindOf m) then .fromAdmin (kindOf m) (seqText m) else .fromApp (seqText m) s.store.target
+
+theorem verifyAppImpl_clean (s : Sess) (m : InMsg) (hv : validate m = none) :
+    verifyAppImpl s m = (s.emit (cbObs s m), callbackVerdict m) := by
+  unfold verifyAppImpl cbObs
+  simp only [hv]
+  split <;> rfl
+
+/-- an in-sequence TestRequest that passes every gate: FromAdmin, the echo, the advance -/
+theorem handleTestRequest_exact (s : Sess) (m : InMsg) (x : String)
+    (hb : checkBeginString s m = none) (hc : checkCompID s m = none)
+    (ht : (curResend s).isSome = true ∨ checkSendingTime s m = none)
+    (hn : getInt m 34 = .val s.store.target) (hv : validate m = none) (hcb : callbackVerdict m = none)
+    (hx : m.f.get? 112 = some x) :
+    handleTestRequest s m =
+      (incrTarget (sendInReplyTo (s.emit (cbObs s m)) (mkOut "0" [(112, x)])), .inSession) := by
+  unfold handleTestRequest
+  rw [verifySelect_exact s m true hb hc ht hn]
+  simp only [if_true, verifyAppImpl_clean s m hv, hcb, hx]
+
+theorem inSessionFixMsgIn_testRequest (s : Sess) (m : InMsg) (x : String) (hk : kindOf m = "1")
+    (hb : checkBeginString s m = none) (hc : checkCompID s m = none)
+    (ht : (curResend s).isSome = true ∨ checkSendingTime s m = none)
+    (hn : getInt m 34 = .val s.store.target) (hv : validate m = none) (hcb : callbackVerdict m = none)
+    (hx : m.f.get? 112 = some x) :
+    inSessionFixMsgIn s m =
+      (incrTarget (sendInReplyTo (s.emit (.fromAdmin "1" (seqText m))) (mkOut "0" [(112, x)])), .inSession) := by
+  unfold inSessionFixMsgIn
+  have e := handleTestRequest_exact s m x hb hc ht hn hv hcb hx
+  have ecb : cbObs s m = .fromAdmin "1" (seqText m) := by simp [cbObs, hk, isAdminKind]
+  rw [ecb] at e
+  simp [hk, e]
+
+
+/-- kinds handled by the default branch of `inSessionFixMsgIn`: application messages, Heartbeat, Reject, … -/
+structure PlainKind (m : InMsg) : Prop where
+  notLogon : kindOf m ≠ "A"
+  notLogout : kindOf m ≠ "5"
+  notResend : kindOf m ≠ "2"
+  notSeqReset : kindOf m ≠ "4"
+  notTestReq : kindOf m ≠ "1"
+
+/-- an in-sequence message of a plain kind that passes every gate and is accepted by the application: the callback, the advance -/
+theorem inSessionFixMsgIn_plain (s : Sess) (m : InMsg) (hk : PlainKind m)
+    (hb : checkBeginString s m = none) (hc : checkCompID s m = none)
+    (ht : (curResend s).isSome = true ∨ checkSendingTime s m = none)
+    (hn : getInt m 34 = .val s.store.target) (hv : validate m = none) (hcb : callbackVerdict m = none) :
+    inSessionFixMsgIn s m = (incrTarget (s.emit (cbObs s m)), .inSession) := by
+  unfold inSessionFixMsgIn
+  have h1 : (kindOf m == "A") = false := by simpa using hk.notLogon
+  have h2 : (kindOf m == "5") = false := by simpa using hk.notLogout
+  have h3 : (kindOf m == "2") = false := by simpa using hk.notResend
+  have h4 : (kindOf m == "4") = false := by simpa using hk.notSeqReset
+  have h5 : (kindOf m == "1") = false := by simpa using hk.notTestReq
+  simp only [h1, h2, h3, h4, h5, Bool.false_eq_true, if_false, verifySelect_exact s m true hb hc ht hn, if_true,
+    verifyAppImpl_clean s m hv, hcb]
+
+/-! ## the gap found on the Logon -/
+
+theorem logonFinish_high (s s' : Sess) (m : InMsg) (n t : Int) (h : logonFinish s m = (s', some (.rej (.tooHigh n t)))) :
+    t = s'.store.target ∧ getInt m 34 = .val n ∧ n > t := by
+  unfold logonFinish at h
+  simp only [] at h
+  split at h
+  · rename_i r' hc
+    simp only [Prod.mk.injEq, Option.some.injEq, LogonErr.rej.injEq] at h
+    obtain ⟨rfl, rfl⟩ := h
+    unfold checkTooHigh at hc
+    split at hc
+    · cases hc
+    · cases hc
+    · rename_i n' hn
+      split at hc
+      · rename_i hgt
+        simp only [Option.some.injEq, Rej.tooHigh.injEq] at hc
+        obtain ⟨rfl, rfl⟩ := hc
+        exact ⟨rfl, hn, hgt⟩
+      · cases hc
+  · simp at h
+
+/-- the only way `handleLogon` reports a gap: the Logon was accepted, answered, the session notified, and its number is
+    above the expected one -/
+theorem handleLogon_high (s s' : Sess) (m : InMsg) (n t : Int) (h : handleLogon s m = (s', some (.rej (.tooHigh n t)))) :
+    t = s'.store.target ∧ getInt m 34 = .val n ∧ n > t := by
+  unfold handleLogon at h
+  split at h
+  · simp at h
+  · simp only [] at h
+    split at h
+    · rename_i s2 r hv
+      simp only [Prod.mk.injEq, Option.some.injEq, LogonErr.rej.injEq] at h
+      have := verifyAppImpl_notHigh _ m r (by rw [hv])
+      rw [h.2] at this; cases this
+    · split at h
+      · rename_i s4 r hv
+        simp only [Prod.mk.injEq, Option.some.injEq, LogonErr.rej.injEq] at h
+        have := verifySelect_notHigh _ m true false r (by rw [hv])
+        rw [h.2] at this; cases this
+      · exact logonFinish_high _ s' m n t h
+
+/-- **Logon-detected gap**: the request for `[T, infinity]` (or the first chunk) is issued and the recovery state starts
+    with an empty stash -/
+theorem logonFixMsgIn_high (s s' : Sess) (m : InMsg) (n t : Int) (hk : kindOf m = "A")
+    (h : handleLogon s m = (s', some (.rej (.tooHigh n t)))) :
+    logonFixMsgIn s m = (sendInReplyTo s' (rrMsg s'.cfg s'.store.target (n - 1)), .resend [] (chunkCur s'.cfg s'.store.target (n - 1)) (n - 1)) := by
+  obtain ⟨rfl, _, _⟩ := handleLogon_high s s' m n t h
+  unfold logonFixMsgIn
+  simp only [hk, bne_self_eq_false, Bool.false_eq_true, if_false, h, sendResendRequest_eq]
+
+
+/-! the positive direction: a Logon that passes every check with a number above the expected one -/
+
+theorem logonMsg_noReset (s : Sess) : ((logonMsg s false).kind == "A" && (logonMsg s false).f.get? 141 == some "Y") = false := by
+  unfold logonMsg mkOut Fields.get?
+  by_cases h : s.cfg.applVer.isEmpty = true <;> simp [h, List.find?]
+
+structure Kept (s s' : Sess) : Prop where
+  st : s'.st = s.st
+  cfg : s'.cfg = s.cfg
+  target : s'.store.target = s.store.target
+
+theorem Kept.refl (s : Sess) : Kept s s := ⟨rfl, rfl, rfl⟩
+theorem Kept.trans {a b c : Sess} (h1 : Kept a b) (h2 : Kept b c) : Kept a c :=
+  ⟨h2.st.trans h1.st, h2.cfg.trans h1.cfg, h2.target.trans h1.target⟩
+
+theorem kept_persistOut (s : Sess) (q : Int) (m : OutMsg) : Kept s (s.persistOut q m) := by
+  unfold Sess.persistOut; split <;> exact ⟨rfl, rfl, rfl⟩
+
+theorem kept_sendQueued (s : Sess) : Kept s (sendQueued s) := by
+  unfold sendQueued; split <;> exact ⟨rfl, rfl, rfl⟩
+
+theorem kept_sendLogonInReplyTo_noReset (s : Sess) : Kept s (sendLogonInReplyTo s false) := by
+  unfold sendLogonInReplyTo dropAndSend prep
+  simp only [logonMsg_noReset s]
+  have hk : isAdminKind (logonMsg s false).kind = true := rfl
+  simp only [hk, if_true, Bool.false_eq_true, if_false]
+  generalize ({ kind := (logonMsg s false).kind, seq := s.store.sender, f := (logonMsg s false).f } : OutMsg) = om
+  have h1 := kept_persistOut s s.store.sender om
+  generalize s.persistOut s.store.sender om = sp at h1 ⊢
+  have h2 : Kept sp (sp.setToSend [om]) := ⟨rfl, rfl, rfl⟩
+  exact (h1.trans h2).trans (kept_sendQueued _)
+
+theorem kept_logonReply_noReset (s : Sess) (m : InMsg) : Kept s (logonReply s m false) := by
+  unfold logonReply
+  split
+  · split
+    · split
+      · rename_i h' _
+        exact Kept.trans (b := s.setHb h') ⟨rfl, rfl, rfl⟩ (kept_sendLogonInReplyTo_noReset _)
+      · exact kept_sendLogonInReplyTo_noReset _
+    · exact kept_sendLogonInReplyTo_noReset _
+  · exact Kept.refl s
+
+theorem checks_congr {s s' : Sess} (h : Kept s s') (m : InMsg) :
+    checkBeginString s' m = checkBeginString s m ∧ checkCompID s' m = checkCompID s m ∧
+    checkSendingTime s' m = checkSendingTime s m ∧ checkTooLow s' m = checkTooLow s m ∧
+    checkTooHigh s' m = checkTooHigh s m ∧ curResend s' = curResend s := by
+  refine ⟨?_, ?_, ?_, ?_, ?_, curResend_congr h.st h.cfg⟩
+  · unfold checkBeginString; rw [h.cfg]
+  · unfold checkCompID; rw [h.cfg]
+  · unfold checkSendingTime; rw [h.cfg]
+  · unfold checkTooLow; rw [h.target]
+  · unfold checkTooHigh; rw [h.target]
+
+/-- a Logon that passes the identity / time gates and is not below the expected number passes `verifySelect` -/
+theorem verifySelect_logon_pass (s : Sess) (m : InMsg) (n : Int)
+    (hb : checkBeginString s m = none) (hc : checkCompID s m = none)
+    (ht : (curResend s).isSome = true ∨ checkSendingTime s m = none)
+    (hn : getInt m 34 = .val n) (hge : s.store.target ≤ n) :
+    verifySelect s m false true false = (s, none) := by
+  unfold verifySelect
+  simp only [hb, hc, timeGate_none s m ht, if_true, checkTooLow_ge s m n hn hge, Bool.false_eq_true, if_false]
+
+/-- **the gap found on the Logon itself**: a Logon that the application accepts, that passes the gates and asks for no
+    reset, carrying a number above the expected one: `handleLogon` answers it (acceptor), notifies, and reports the gap
+    against the unchanged expected number -/
+theorem handleLogon_gap (s : Sess) (m : InMsg) (n : Int)
+    (hfixt : (s.cfg.bs == 5 && !(m.f.has 1137)) = false)
+    (hv : validate m = none) (hcb : callbackVerdict m = none)
+    (hr1 : (if s.cfg.initiator then false else s.cfg.resetOnLogon) = false) (hr2 : logonResetFlag m = false)
+    (hb : checkBeginString s m = none) (hc : checkCompID s m = none)
+    (ht : (curResend s).isSome = true ∨ checkSendingTime s m = none)
+    (hn : getInt m 34 = .val n) (hgt : n > s.store.target) :
+    ∃ s', handleLogon s m = (s', some (.rej (.tooHigh n s.store.target))) ∧ Kept s s' := by
+  unfold handleLogon
+  simp only [hfixt, Bool.false_eq_true, if_false]
+  generalize hs1 : (if (!s.cfg.initiator && s.cfg.refreshOnLogon) = true then s.emit Obs.refresh else s) = s1
+  have k1 : Kept s s1 := by rw [← hs1]; split <;> exact ⟨rfl, rfl, rfl⟩
+  have sr1 : s1.sentReset = s.sentReset := by rw [← hs1]; split <;> rfl
+  simp only [verifyAppImpl_clean s1 m hv, hcb]
+  have k2 : Kept s (s1.emit (cbObs s1 m)) := k1.trans ⟨rfl, rfl, rfl⟩
+  have hcond : ((if (s1.emit (cbObs s1 m)).cfg.initiator = true then false else (s1.emit (cbObs s1 m)).cfg.resetOnLogon) ||
+      logonResetFlag m && !(s1.emit (cbObs s1 m)).sentReset) = false := by
+    have : (s1.emit (cbObs s1 m)).cfg = s.cfg := k2.cfg
+    rw [this, hr1, hr2]; rfl
+  simp only [hcond, Bool.false_eq_true, if_false]
+  obtain ⟨c1, c2, c3, c4, c5, c6⟩ := checks_congr k2 m
+  rw [verifySelect_logon_pass _ m n (by rw [c1]; exact hb) (by rw [c2]; exact hc) (by rw [c6, c3]; exact ht) hn
+    (by rw [k2.target]; omega)]
+  simp only [hr2]
+  have k3 := k2.trans (kept_logonReply_noReset (s1.emit (cbObs s1 m)) m)
+  generalize logonReply (s1.emit (cbObs s1 m)) m false = s5 at k3
+  unfold logonFinish
+  simp only []
+  have k4 : Kept s (((s5.setSentReset false).emit (Obs.armPeer (1200 * s5.hb))).emit Obs.onLogon) := k3.trans ⟨rfl, rfl, rfl⟩
+  rw [checkTooHigh_gt _ m n hn (by rw [k4.target]; exact hgt)]
+  exact ⟨_, by rw [k4.target], k4⟩
+
+
 end Qfx.Sess
